@@ -193,6 +193,14 @@ def corpus(seed):
               'select t.date as size, t.level from t as comment where t.number > 1',
               'select key, value, type, year, month, rank, rows, role, name, text, zone from tab order by position'][i % 3]
         out.append((f'render-names:{i}', 'render', (s_, d)))
+    # statements nested deeper than the interpreter's default recursion limit allows the printers / copiers to go: whatever they give
+    # (an error, usually) is their result in every process state - process-wide settings are inputs nobody passed
+    deep_and = ' AND '.join(f'c{i} = {i}' for i in range(1500))
+    out.append(('deep:parse', 'parse', ('SELECT a FROM t WHERE ' + deep_and, 'mindsdb')))
+    out.append(('deep:plan', 'plan', 'SELECT a FROM int1.t1 WHERE ' + deep_and))
+    out.append(('deep:plan-join', 'plan', 'SELECT t.a FROM int1.t1 AS t JOIN int2.t2 AS u ON t.id = u.id WHERE ' + deep_and))
+    out.append(('deep:render', 'render', ('SELECT a FROM t WHERE ' + deep_and, 'postgresql')))
+    out.append(('deep:parse-nested', 'parse', ('SELECT ' + '(' * 400 + '1' + ')' * 400, 'mysql')))
     # prepared statements: the column-discovery steps of joins (order of the steps is part of the result)
     for i, s in enumerate(['SELECT o.id, c.name, p.title FROM int1.orders AS o JOIN int1.customers AS c ON o.cid = c.id JOIN int1.products AS p ON o.pid = p.id WHERE o.id = ?',
                            'SELECT * FROM int1.orders AS o JOIN int1.customers AS c ON o.cid = c.id',
@@ -444,6 +452,14 @@ def axis_threads(ctx, items, gold, rounds):
                         acc.fail({'axis': 'threads', 'api': api, 'input_class': cid.split(':')[0], 'differs': diff_kind(gold[cid], res)},
                                  {'input': cid, 'golden': gold[cid], 'observed': res, 'round': rnd, 'thread': k,
                                   'history_tail': [list(e) for e in events[-12:]]})
+            # after the round the process must be as it was: the deep statements (sensitive to process-wide interpreter settings)
+            # still give their own results
+            for cid, api, payload in [it for it in items if it[0].startswith('deep:')]:
+                res = call(api, payload)
+                acc.count('probe_calls_after_thread_rounds')
+                if res != gold[cid]:
+                    acc.fail({'axis': 'process-state-after-threads', 'api': api, 'input_class': 'deep', 'differs': diff_kind(gold[cid], res)},
+                             {'input': cid, 'golden': str(gold[cid])[:200], 'observed': str(res)[:200], 'round': rnd, 'recursion_limit_now': sys.getrecursionlimit()})
             # the shared catalog must still behave like a fresh one (judged by re-running, not by mere mutation)
             for cid, api, payload in [it for it in pool if it[1] == 'plan'][:6]:
                 res = call(api, payload, shared)
